@@ -15,9 +15,9 @@ finished (or non-existent) thread is a `skip`.
 | code | steps |
 |---|---|
 | `AimdController::record_success` | load limit; store `min(r + increase_by, max)` |
-| `AimdController::record_failure` | load limit; store `max(⌊r·p/q⌋, min)` |
+| `AimdController::record_failure` | load limit; store `max(d r, min)`, `d r = (r as f64 * decrease_factor) as usize` (`Cfg.dec`) |
 | `Aimd::record_success(l)` | `l > threshold` → `record_failure` else `record_success` (no atomics of its own) |
-| `Vegas::update_rtt` | load min_rtt; `while rtt < cm` { CAS(min_rtt, cm, rtt): ok → break, else cm := seen }; load smoothed; store smoothed; fetch_add count |
+| `Vegas::update_rtt` | load min_rtt; `while rtt < cm` { CAS-weak(min_rtt, cm, rtt): ok → break, else cm := seen — the compare-exchange is the WEAK one: it may fail although the cell holds `cm` (`Turn.weak`) }; load smoothed; store smoothed; fetch_add count |
 | `Vegas::adjust_limit` | load count (`< min_samples` → return); load min_rtt; load smoothed (`min = MAX ∨ min = 0 ∨ smoothed = 0` → return); load limit; store limit |
 | `Vegas::record_failure` | load limit; store `max(r/2, min)` |
 | `limit()` | load limit |
@@ -30,8 +30,11 @@ finished (or non-existent) thread is a `skip`.
 it; it is the `.aimd` model with `ctl := true` and no latency threshold (`record_success()` takes no latency).
 
 Numbers: `usize`/`u64` are unbounded `Nat` (`saturating_add` never saturates below 2^64).
-The AIMD decrease `(r as f64 * factor) as usize` is `⌊r·p/q⌋` for a dyadic factor `p/q`
-(`q` a power of two: the product is exact in `f64`); the generated cases use only such factors.
+The AIMD decrease `(r as f64 * factor) as usize` is a FUNCTION of the configuration (`Cfg.dec : Nat → Nat`): the
+theorems hold for every function with `dec r ≤ r` on the values within the bounds (`TR.Limit.DecOk`). The line
+protocol instantiates it with `f64Dec p q` — the exact transcription, in `Nat` arithmetic, of
+`(r as f64 * (p as f64 / q as f64)) as usize` for `p, q, r < 2^53` (two IEEE-754 roundings to nearest, ties to
+even, then truncation), whatever the factor `p/q` (for a dyadic factor and a product below 2^53 it is `⌊r·p/q⌋`).
 Vegas: the EMA with smoothing 0.5, `(0.5·a + 0.5·b) as u64`, is exact for `a, b < 2^52`:
 `⌊(a+b)/2⌋`. The queue estimate `((s−m) as f64 / m as f64 * l as f64) as usize` is computed by
 `queueEst`, an exact transcription of the two IEEE-754 binary64 roundings (round to nearest,
@@ -40,6 +43,9 @@ ties to even) in `Nat` arithmetic, valid for operands below 2^53; when `m` is a 
 No theorem depends on `queueEst`: the bounds hold for an arbitrary estimate.
 -/
 namespace TR.Limit
+
+/-- (only so that `Cfg` can derive `Repr`) -/
+local instance : Repr (Nat → Nat) := ⟨fun _ _ => "<fun>"⟩
 
 inductive Kind
   | aimd
@@ -52,8 +58,7 @@ structure Cfg where
   max        : Nat := 100
   initial    : Nat := 10
   inc        : Nat := 1            -- AIMD `increase_by`
-  fnum       : Nat := 1            -- AIMD `decrease_factor` = fnum / fden
-  fden       : Nat := 2
+  dec        : Nat → Nat := fun r => r / 2   -- AIMD decrease `(r as f64 * decrease_factor) as usize` (default: factor 0.5)
   thrNs      : Nat := 100000000    -- AIMD `latency_threshold` in ns
   alpha      : Nat := 3
   beta       : Nat := 6
@@ -106,10 +111,20 @@ def mulTrunc (ms : Nat × Nat) (l : Nat) : Nat :=
 def queueEst (minRtt smoothed limit : Nat) : Nat :=
   if smoothed > minRtt ∧ minRtt > 0 then mulTrunc (fdiv (smoothed - minRtt) minRtt) limit else 0
 
+/-- `fl(n / d)` as mantissa and scale, also for `n = 0` (the value 0) -/
+def fdiv0 (n d : Nat) : Nat × Nat := if n = 0 then (0, 0) else fdiv n d
+
+/-- `(r as f64 * (p as f64 / q as f64)) as usize` for `p, q, r < 2^53`, `q ≠ 0`: the quotient rounded to binary64, the
+product rounded to binary64, truncated. (`q = 0` — an infinite or NaN factor — is outside the property: `0`.) -/
+def f64Dec (p q r : Nat) : Nat := if q = 0 then 0 else mulTrunc (fdiv0 p q) r
+
+/-- the exact rational decrease `⌊r·p/q⌋` (what `f64Dec p q` is for dyadic factors and small products) -/
+def ratioDec (p q r : Nat) : Nat := r * p / q
+
 /-! ## the values stored -/
 
 def aimdSuccNew (cfg : Cfg) (r : Nat) : Nat := min (r + cfg.inc) cfg.max
-def aimdFailNew (cfg : Cfg) (r : Nat) : Nat := max (r * cfg.fnum / cfg.fden) cfg.min
+def aimdFailNew (cfg : Cfg) (r : Nat) : Nat := max (cfg.dec r) cfg.min
 /-- `record_successes(n)`: the SUM is clamped -/
 def aimdSuccsNew (cfg : Cfg) (n r : Nat) : Nat := min (r + cfg.inc * n) cfg.max
 def vegasFailNew (cfg : Cfg) (r : Nat) : Nat := max (r / 2) cfg.min
@@ -168,7 +183,7 @@ structure Thread where
   prog : List FOp := []
   ph   : Phase := .idle
   out  : List Nat := []        -- values returned by `limit()`
-deriving Repr, Inhabited
+deriving Repr, Inhabited, DecidableEq
 
 def finish (th : Thread) : Thread := { th with prog := th.prog.tail, ph := .idle }
 
@@ -225,7 +240,47 @@ def tstep (cfg : Cfg) (c : Cells) (th : Thread) : Cells × Thread :=
       | op :: _ => beginOp cfg c th op
   | _ => contOp cfg c th
 
+/-- a spurious failure of the `compare_exchange_weak` of `update_rtt` (algorithm.rs:233): the exchange does not
+happen although the cell may hold the expected value; `Err(actual)` — the thread takes the ACTUAL value of the cell as
+its new `current_min` and goes round the `while` again. `none`: the thread's next atomic operation is not a weak
+compare-exchange (nothing can fail spuriously there). -/
+def weakFail (c : Cells) (th : Thread) : Option Thread :=
+  match th.ph with
+  | .vMin rtt _ => some { th with ph := afterMinLoad rtt c.minRtt }
+  | _ => none
+
+/-- one turn of a thread that is not finished; `weak`: if its next atomic operation is a `compare_exchange_weak`, it
+fails spuriously (no effect on any cell) — otherwise the turn is an ordinary one -/
+def tstepW (cfg : Cfg) (c : Cells) (th : Thread) (weak : Bool) : Cells × Thread :=
+  if weak then
+    match weakFail c th with
+    | some th' => (c, th')
+    | none => tstep cfg c th
+  else tstep cfg c th
+
 /-! ## schedules -/
+
+/-- one turn of a schedule: thread `tid` performs its next atomic operation; `weak`: the same, except that a
+`compare_exchange_weak` fails spuriously. A numeral `n` is the ordinary turn of thread `n`. -/
+inductive Turn
+  | run (tid : Nat)
+  | weak (tid : Nat)
+deriving DecidableEq, Repr, Inhabited
+
+instance : OfNat Turn n := ⟨.run n⟩
+
+def Turn.tid : Turn → Nat
+  | .run t => t
+  | .weak t => t
+
+def Turn.isWeak : Turn → Bool
+  | .run _ => false
+  | .weak _ => true
+
+/-- as the turn is named in the logs: `0` / `0 weak` -/
+def Turn.render : Turn → String
+  | .run t => toString t
+  | .weak t => s!"{t} weak"
 
 structure State where
   cells   : Cells
@@ -235,17 +290,17 @@ deriving Repr
 
 def say (s : State) (l : String) : State := { s with log := s.log ++ [.raw l] }
 
-/-- one turn of the schedule, given to thread `tid` -/
-def stepT (cfg : Cfg) (s : State) (tid : Nat) : State :=
-  match s.threads[tid]? with
-  | none => say s s!"skip {tid}"
+/-- one turn of the schedule -/
+def stepT (cfg : Cfg) (s : State) (t : Turn) : State :=
+  match s.threads[t.tid]? with
+  | none => say s s!"skip {t.render}"
   | some th =>
-      if th.prog.isEmpty then say s s!"skip {tid}"
+      if th.prog.isEmpty then say s s!"skip {t.render}"
       else
-        let r := tstep cfg s.cells th
-        say { s with cells := r.1, threads := s.threads.set tid r.2 } s!"step {tid}"
+        let r := tstepW cfg s.cells th t.isWeak
+        say { s with cells := r.1, threads := s.threads.set t.tid r.2 } s!"step {t.render}"
 
-def runSched (cfg : Cfg) (s : State) (sched : List Nat) : State := sched.foldl (stepT cfg) s
+def runSched (cfg : Cfg) (s : State) (sched : List Turn) : State := sched.foldl (stepT cfg) s
 
 def firstLive (ths : List Thread) : Option Nat := ths.findIdx? (fun th => !th.prog.isEmpty)
 
@@ -255,11 +310,11 @@ def drain (cfg : Cfg) : Nat → State → State
   | n + 1, s =>
       match firstLive s.threads with
       | none => s
-      | some t => drain cfg n (stepT cfg s t)
+      | some t => drain cfg n (stepT cfg s (.run t))
 
 def drainFuel (s : State) : Nat := 16 * (s.threads.map (fun th => th.prog.length)).sum + 16
 
-def exec (cfg : Cfg) (s : State) (sched : List Nat) : State :=
+def exec (cfg : Cfg) (s : State) (sched : List Turn) : State :=
   let s' := runSched cfg s sched
   drain cfg (drainFuel s') s'
 
@@ -309,14 +364,18 @@ def parseProg : List Char → List FOp
 def parseCfg (kv : Kv) : Cfg :=
   { kind := if kv.str "kind" "aimd" = "vegas" then .vegas else .aimd
     min := kv.nat "min" 1, max := kv.nat "max" 100, initial := kv.nat "initial" 10
-    inc := kv.nat "inc" 1, fnum := kv.nat "fnum" 1, fden := kv.nat "fden" 2
+    inc := kv.nat "inc" 1, dec := f64Dec (kv.nat "fnum" 1) (kv.nat "fden" 2)
     -- the bare controller's `record_success()` takes no latency: no threshold is ever exceeded
     thrNs := if kv.str "kind" "aimd" = "ctl" then u64Max * 1000000 else kv.nat "thr_ms" 100 * 1000000
     alpha := kv.nat "alpha" 3, beta := kv.nat "beta" 6, minSamples := kv.nat "minsamples" 10
     ctl := kv.str "kind" "aimd" = "ctl" }
 
-def parseSched (s : String) : List Nat :=
-  (s.splitOn ",").filterMap fun w => w.toNat?
+/-- `0,1,f0,2`: thread ids; `f<tid>` is the turn of thread `tid` in which a `compare_exchange_weak` fails spuriously -/
+def parseSched (s : String) : List Turn :=
+  (s.splitOn ",").filterMap fun w =>
+    match w.toList with
+    | 'f' :: d => (String.ofList d).toNat?.map Turn.weak
+    | _ => w.toNat?.map Turn.run
 
 def renderOuts (l : List Nat) : String :=
   if l.isEmpty then "none" else ",".intercalate (l.map toString)
